@@ -296,6 +296,8 @@ bad_nOpts:
     // Handler says we should stop:
     if (auto rv = Handler().OnAMPLOptions(ao)) {
       internal_rv_ = rv;
+      serror("solution handler rejected the AMPL options of '%s' (code %d)",
+             stub_, (int)rv);
       return NLW2_SOLRead_Bad_Options;
     }
 
